@@ -197,12 +197,14 @@ def run_side(cmd, cases, env=None, tag="x", nproc=None):
 
 
 def canon(lines):
-    """canonical comparison form: a FAULT line keeps only its class"""
+    """canonical comparison form: a FAULT line keeps only its class; text behind " ~~ " is implementation-only
+    (runtime facts the model has no counterpart for, e.g. how often a compression hook was called): the oracle
+    sees it, the correspondence does not compare it"""
     out = []
     for l in lines:
         if l.startswith("FAULT"):
             out.append("FAULT"); break
-        out.append(l)
+        out.append(l.split(" ~~ ")[0])
     return out
 
 
